@@ -24,6 +24,7 @@ import (
 	"os"
 	"os/exec"
 	"path/filepath"
+	"sort"
 	"strings"
 )
 
@@ -51,6 +52,20 @@ func main() {
 	}{{filepath.Join("encoding", "osm"), true}, {"route", false}} {
 		announceLocks = pkg.locks
 		files, _ := filepath.Glob(filepath.Join(dst, pkg.dir, "*.go"))
+		trace = pkg.locks
+		if trace {
+			if err := survey(files); err != nil {
+				fail(err)
+			}
+			if len(unknownSync) > 0 {
+				note := "constructs the happens-before tracking does not cover: " + strings.Join(unknownSync, "; ")
+				gen := fmt.Sprintf("//go:build verif\n// +build verif\n\npackage osm\n\nfunc init() { SimFillInfo = %q }\n", note)
+				if err := os.WriteFile(filepath.Join(dst, pkg.dir, "sim_fill.go"), []byte(gen), 0o644); err != nil {
+					fail(err)
+				}
+				fmt.Println("hookfill:", note)
+			}
+		}
 		for _, f := range files {
 			base := filepath.Base(f)
 			if strings.HasSuffix(base, "_test.go") || base == "sim_on.go" || base == "sim_off.go" {
@@ -68,6 +83,7 @@ func main() {
 	}
 	fmt.Printf("hookfill: %d announcement(s) inserted\n", total)
 	fmt.Printf("hookfill: %d statement-level yield points inserted\n", yieldsInserted)
+	fmt.Printf("hookfill: %d lock releases and %d shared-map accesses announced (monitored fields: %s)\n", releasesInserted, accessesInserted, strings.Join(sortedKeys(mapFields), " "))
 }
 
 func fail(err error) {
@@ -154,6 +170,29 @@ func fill(path string) (int, error) {
 					yieldsInserted++
 				}
 			}
+			if trace {
+				if d, ok := s.(*ast.DeferStmt); ok {
+					// defer x.Unlock(): a second defer, registered later, runs
+					// first: the release is announced just before the unlock
+					if x, write, ok := unlockCall(d.Call); ok {
+						out = append(out, s, &ast.DeferStmt{Call: relCall(x, write)})
+						releasesInserted++
+						continue
+					}
+				}
+				if es, ok := s.(*ast.ExprStmt); ok {
+					if c, ok := es.X.(*ast.CallExpr); ok {
+						if x, write, ok := unlockCall(c); ok {
+							out = append(out, &ast.ExprStmt{X: relCall(x, write)})
+							releasesInserted++
+						}
+					}
+				}
+				for _, a := range accesses(fset, s) {
+					out = append(out, a)
+					accessesInserted++
+				}
+			}
 			if x, write, ok := lockCall(s); ok && announceLocks {
 				if i == 0 || !isAnnouncement(list[i-1]) {
 					w := "false"
@@ -182,7 +221,7 @@ func fill(path string) (int, error) {
 		}
 		return true
 	})
-	if inserted == 0 && yieldsInserted == 0 {
+	if inserted == 0 && yieldsInserted == 0 && releasesInserted == 0 && accessesInserted == 0 {
 		return 0, nil
 	}
 	var buf bytes.Buffer
@@ -190,4 +229,414 @@ func fill(path string) (int, error) {
 		return 0, err
 	}
 	return inserted, os.WriteFile(path, buf.Bytes(), 0o644)
+}
+
+// ---------- happens-before tracking: releases and shared-map accesses ----------
+
+var (
+	trace            bool
+	releasesInserted int
+	accessesInserted int
+	mapFields        = map[string]bool{} // names of map-typed struct fields of the package
+	pureFuncs        = map[string]bool{} // package functions/methods without synchronisation, transitively
+	pkgTypes         = map[string]bool{}
+	imports          = map[string]string{} // local name -> path
+	unknownSync      []string
+)
+
+func sortedKeys(m map[string]bool) []string {
+	var ks []string
+	for k := range m {
+		ks = append(ks, k)
+	}
+	sort.Strings(ks)
+	return ks
+}
+
+func unlockCall(call *ast.CallExpr) (ast.Expr, bool, bool) {
+	if call == nil || len(call.Args) != 0 {
+		return nil, false, false
+	}
+	sel, ok := call.Fun.(*ast.SelectorExpr)
+	if !ok {
+		return nil, false, false
+	}
+	switch sel.Sel.Name {
+	case "Unlock":
+		return sel.X, true, true
+	case "RUnlock":
+		return sel.X, false, true
+	}
+	return nil, false, false
+}
+
+func boolIdent(b bool) ast.Expr {
+	if b {
+		return ast.NewIdent("true")
+	}
+	return ast.NewIdent("false")
+}
+
+func relCall(x ast.Expr, write bool) *ast.CallExpr {
+	return &ast.CallExpr{Fun: ast.NewIdent("simRelease"), Args: []ast.Expr{&ast.UnaryExpr{Op: token.AND, X: x}, boolIdent(write)}}
+}
+
+var builtins = map[string]bool{"len": true, "cap": true, "make": true, "new": true, "append": true, "delete": true, "copy": true,
+	"min": true, "max": true, "panic": true, "clear": true, "string": true, "int": true, "int64": true, "int32": true, "uint64": true,
+	"uint32": true, "float64": true, "float32": true, "byte": true, "rune": true, "uint": true, "bool": true, "error": true}
+
+var syncPaths = map[string]bool{"sync": true, "sync/atomic": true, "context": true, "time": true, "golang.org/x/sync/errgroup": true, "runtime": true}
+
+// callPure: the call cannot synchronise with another goroutine, as far as
+// syntax tells (builtins, conversions, functions of imported non-sync
+// packages, package functions that are pure themselves).
+func callPure(c *ast.CallExpr, pure map[string]bool) bool {
+	switch f := c.Fun.(type) {
+	case *ast.Ident:
+		return builtins[f.Name] || pkgTypes[f.Name] || pure[f.Name]
+	case *ast.SelectorExpr:
+		if id, ok := f.X.(*ast.Ident); ok {
+			if path, isPkg := imports[id.Name]; isPkg && id.Obj == nil {
+				return !syncPaths[path]
+			}
+		}
+		return pure[f.Sel.Name] && !strings.HasPrefix(f.Sel.Name, "sim")
+	case *ast.ArrayType, *ast.MapType, *ast.ParenExpr, *ast.StarExpr:
+		return true // conversion
+	}
+	return false
+}
+
+// exprsPure reports whether every call in the nodes (function literals not
+// entered) is pure.
+func nodesPure(pure map[string]bool, nodes ...ast.Node) bool {
+	ok := true
+	for _, n := range nodes {
+		if n == nil || isNilNode(n) {
+			continue
+		}
+		ast.Inspect(n, func(x ast.Node) bool {
+			switch v := x.(type) {
+			case *ast.FuncLit:
+				return false
+			case *ast.CallExpr:
+				if !callPure(v, pure) {
+					ok = false
+				}
+			case *ast.GoStmt, *ast.SendStmt, *ast.SelectStmt, *ast.DeferStmt:
+				ok = false
+			case *ast.UnaryExpr:
+				if v.Op == token.ARROW {
+					ok = false
+				}
+			}
+			return ok
+		})
+	}
+	return ok
+}
+
+func isNilNode(n ast.Node) bool {
+	switch v := n.(type) {
+	case ast.Expr:
+		return v == nil
+	case ast.Stmt:
+		return v == nil
+	}
+	return false
+}
+
+// survey parses the package once: map-typed struct fields, type names,
+// imports, function purity (fixpoint), synchronisation constructs the
+// tracking does not know.
+func survey(files []string) error {
+	fset := token.NewFileSet()
+	type fn struct {
+		name string
+		body *ast.BlockStmt
+	}
+	var fns []fn
+	seenSync := map[string]bool{}
+	for _, f := range files {
+		base := filepath.Base(f)
+		if strings.HasSuffix(base, "_test.go") || base == "sim_on.go" || base == "sim_off.go" || base == "sim_fill.go" {
+			continue
+		}
+		file, err := parser.ParseFile(fset, f, nil, 0)
+		if err != nil {
+			return err
+		}
+		for _, im := range file.Imports {
+			path := strings.Trim(im.Path.Value, "\"")
+			name := path[strings.LastIndex(path, "/")+1:]
+			if im.Name != nil {
+				name = im.Name.Name
+			}
+			imports[name] = path
+		}
+		ast.Inspect(file, func(n ast.Node) bool {
+			switch v := n.(type) {
+			case *ast.TypeSpec:
+				pkgTypes[v.Name.Name] = true
+				if st, ok := v.Type.(*ast.StructType); ok {
+					for _, fld := range st.Fields.List {
+						if _, isMap := fld.Type.(*ast.MapType); isMap {
+							for _, nm := range fld.Names {
+								mapFields[nm.Name] = true
+							}
+						}
+					}
+				}
+			case *ast.FuncDecl:
+				if v.Body != nil {
+					fns = append(fns, fn{v.Name.Name, v.Body})
+				}
+			case *ast.GoStmt:
+				seenSync["a go statement (a goroutine the scheduler is not told about)"] = true
+			case *ast.SelectStmt:
+				seenSync["a select statement"] = true
+			case *ast.SelectorExpr:
+				if id, ok := v.X.(*ast.Ident); ok && id.Obj == nil {
+					switch path := imports[id.Name]; {
+					case path == "sync/atomic":
+						seenSync["sync/atomic"] = true
+					case path == "sync" && (v.Sel.Name == "Once" || v.Sel.Name == "Map" || v.Sel.Name == "Cond" || v.Sel.Name == "WaitGroup" || v.Sel.Name == "Pool" || v.Sel.Name == "OnceFunc" || v.Sel.Name == "OnceValue"):
+						seenSync["sync."+v.Sel.Name] = true
+					}
+				}
+			}
+			return true
+		})
+	}
+	unknownSync = sortedKeys(seenSync)
+	// purity: start optimistic, remove until stable; a name declared twice
+	// (methods of different types) is pure only if every declaration is
+	for _, f := range fns {
+		pureFuncs[f.name] = true
+	}
+	for changed := true; changed; {
+		changed = false
+		for _, f := range fns {
+			if pureFuncs[f.name] && !nodesPure(pureFuncs, f.body) {
+				pureFuncs[f.name] = false
+				changed = true
+			}
+		}
+	}
+	return nil
+}
+
+// simpleChain: an identifier or a chain of field selections from one (an
+// addressable operand as far as syntax tells).
+func simpleChain(e ast.Expr) bool {
+	switch v := e.(type) {
+	case *ast.Ident:
+		return true
+	case *ast.SelectorExpr:
+		return simpleChain(v.X)
+	case *ast.ParenExpr:
+		return simpleChain(v.X)
+	case *ast.StarExpr:
+		return simpleChain(v.X)
+	}
+	return false
+}
+
+func exprText(fset *token.FileSet, e ast.Expr) string {
+	var b bytes.Buffer
+	format.Node(&b, fset, e)
+	return b.String()
+}
+
+// accesses returns the simAccess statements for the monitored map fields the
+// statement s reads or writes itself (for compound statements: in its header;
+// bodies are statements of their own). Nothing is announced for a statement
+// that may synchronise on the way (an impure call), because the announcement
+// would then carry an earlier clock than the access.
+func accesses(fset *token.FileSet, s ast.Stmt) []ast.Stmt {
+	var parts []ast.Node
+	var lhs []ast.Expr
+	switch v := s.(type) {
+	case *ast.AssignStmt:
+		for _, r := range v.Rhs {
+			parts = append(parts, r)
+		}
+		lhs = v.Lhs
+		if v.Tok != token.ASSIGN && v.Tok != token.DEFINE {
+			for _, l := range v.Lhs { // x op= y reads x too
+				parts = append(parts, l)
+			}
+		}
+	case *ast.IncDecStmt:
+		lhs = []ast.Expr{v.X}
+		parts = append(parts, v.X)
+	case *ast.ExprStmt:
+		parts = append(parts, v.X)
+	case *ast.ReturnStmt:
+		for _, r := range v.Results {
+			parts = append(parts, r)
+		}
+	case *ast.DeclStmt:
+		parts = append(parts, v.Decl)
+	case *ast.IfStmt:
+		if v.Init != nil {
+			return mergeAcc(fset, accesses(fset, v.Init), v.Cond, v.Init)
+		}
+		parts = append(parts, v.Cond)
+	case *ast.ForStmt:
+		if v.Init != nil {
+			parts = append(parts, v.Init)
+		}
+		if v.Cond != nil {
+			parts = append(parts, v.Cond)
+		}
+	case *ast.RangeStmt:
+		parts = append(parts, v.X)
+	case *ast.SwitchStmt:
+		if v.Init != nil {
+			parts = append(parts, v.Init)
+		}
+		if v.Tag != nil {
+			parts = append(parts, v.Tag)
+		}
+	case *ast.TypeSwitchStmt:
+		if v.Init != nil {
+			parts = append(parts, v.Init)
+		}
+		parts = append(parts, v.Assign)
+	default:
+		return nil
+	}
+	all := append([]ast.Node{}, parts...)
+	for _, l := range lhs {
+		all = append(all, l)
+	}
+	if !nodesPure(pureFuncs, all...) {
+		return nil
+	}
+	acc := map[string]bool{} // selector text -> write
+	exprs := map[string]ast.Expr{}
+	// names the statement's own init clause defines are not in scope where
+	// the announcement is placed
+	local := map[string]bool{}
+	var initStmt ast.Stmt
+	switch v := s.(type) {
+	case *ast.ForStmt:
+		initStmt = v.Init
+	case *ast.SwitchStmt:
+		initStmt = v.Init
+	case *ast.TypeSwitchStmt:
+		initStmt = v.Init
+	}
+	if as, ok := initStmt.(*ast.AssignStmt); ok && as.Tok == token.DEFINE {
+		for _, l := range as.Lhs {
+			if id, ok := l.(*ast.Ident); ok {
+				local[id.Name] = true
+			}
+		}
+	}
+	for k := range extraLocal {
+		local[k] = true
+	}
+	note := func(sel *ast.SelectorExpr, write bool) {
+		if !mapFields[sel.Sel.Name] || !simpleChain(sel.X) || local[rootName(sel)] {
+			return
+		}
+		if id, ok := sel.X.(*ast.Ident); ok && id.Obj == nil {
+			if _, isPkg := imports[id.Name]; isPkg {
+				return
+			}
+		}
+		k := exprText(fset, sel)
+		acc[k] = acc[k] || write
+		exprs[k] = sel
+	}
+	var scan func(n ast.Node)
+	scan = func(n ast.Node) {
+		ast.Inspect(n, func(x ast.Node) bool {
+			switch v := x.(type) {
+			case *ast.FuncLit:
+				return false
+			case *ast.CallExpr:
+				if id, ok := v.Fun.(*ast.Ident); ok && (id.Name == "delete" || id.Name == "clear") && len(v.Args) > 0 {
+					if sel, ok := v.Args[0].(*ast.SelectorExpr); ok {
+						note(sel, true)
+					}
+				}
+			case *ast.SelectorExpr:
+				note(v, false)
+			}
+			return true
+		})
+	}
+	for _, p := range parts {
+		scan(p)
+	}
+	for _, l := range lhs {
+		switch v := l.(type) {
+		case *ast.IndexExpr:
+			if sel, ok := v.X.(*ast.SelectorExpr); ok {
+				note(sel, true)
+			} else {
+				scan(v.X)
+			}
+			scan(v.Index)
+		case *ast.SelectorExpr:
+			note(v, true)
+			scan(v.X)
+		default:
+			scan(l)
+		}
+	}
+	var out []ast.Stmt
+	for _, k := range sortedKeys(toSet(acc)) {
+		pos := fset.Position(s.Pos())
+		site := fmt.Sprintf("%s:%d %s", filepath.Base(pos.Filename), pos.Line, k)
+		out = append(out, &ast.ExprStmt{X: &ast.CallExpr{Fun: ast.NewIdent("simAccess"),
+			Args: []ast.Expr{&ast.UnaryExpr{Op: token.AND, X: exprs[k]}, boolIdent(acc[k]), &ast.BasicLit{Kind: token.STRING, Value: fmt.Sprintf("%q", site)}}}})
+	}
+	return out
+}
+
+func toSet(m map[string]bool) map[string]bool {
+	o := map[string]bool{}
+	for k := range m {
+		o[k] = true
+	}
+	return o
+}
+
+// mergeAcc: an if statement with an init clause — the accesses of the init
+// statement plus those of the condition, unless either part may synchronise.
+func mergeAcc(fset *token.FileSet, initAcc []ast.Stmt, cond ast.Expr, init ast.Stmt) []ast.Stmt {
+	if !nodesPure(pureFuncs, cond, init) {
+		return nil
+	}
+	extraLocal = map[string]bool{}
+	if as, ok := init.(*ast.AssignStmt); ok && as.Tok == token.DEFINE {
+		for _, l := range as.Lhs {
+			if id, ok := l.(*ast.Ident); ok {
+				extraLocal[id.Name] = true
+			}
+		}
+	}
+	condAcc := accesses(fset, &ast.ExprStmt{X: cond})
+	extraLocal = nil
+	return append(initAcc, condAcc...)
+}
+
+var extraLocal map[string]bool
+
+func rootName(e ast.Expr) string {
+	switch v := e.(type) {
+	case *ast.Ident:
+		return v.Name
+	case *ast.SelectorExpr:
+		return rootName(v.X)
+	case *ast.ParenExpr:
+		return rootName(v.X)
+	case *ast.StarExpr:
+		return rootName(v.X)
+	}
+	return ""
 }
